@@ -17,6 +17,63 @@ EXPLANATION = (
 ASSUMPTIONS = ["byte equality over all traffic scripts and interleavings is value/schedule-level and is not decided; these are necessary wiring conditions"]
 
 
+def simulate_with_variants(b, decide_option, max_states=40000):
+    """Finite-configuration walk of a (flat) body that also follows *enum values built on the way*: once the configuration has forced the path
+    through a helper such as `config.transport()`, the helper returns one known variant, and a later `match` on that value has one known arm.
+    Tracks, per path, which locals hold a known variant (aggregate construction, copies, moves, the discriminant read) and forces switches on
+    them; switches that depend on neither the configuration nor a known variant fork. Returns the set of visited blocks."""
+    seen_blocks, seen_states = set(), set()
+    work = [(0, ())]
+    while work and len(seen_states) < max_states:
+        blk, envt = work.pop()
+        key = (blk, envt)
+        if key in seen_states:
+            continue
+        seen_states.add(key)
+        seen_blocks.add(blk)
+        env = dict(envt)
+        for s_ in b.stmts(blk):
+            if s_["k"] == "assign" and not s_["p"][1]:
+                dst = s_["p"][0]
+                rv = s_["rv"]
+                env.pop(dst, None)
+                if rv["k"] == "agg" and rv.get("ak") == "adt" and "vidx" in rv:
+                    env[dst] = ("v", rv["vidx"])
+                elif rv["k"] in ("use", "cast"):
+                    q = op_place(rv["op"])
+                    if q is not None and not q[1] and q[0] in env:
+                        env[dst] = env[q[0]]
+                elif rv["k"] == "ref":
+                    q = rv["p"]
+                    if not q[1] and q[0] in env:
+                        env[dst] = env[q[0]]
+                elif rv["k"] == "discr":
+                    q = rv["p"]
+                    base_ = q[0]
+                    if base_ in env and env[base_][0] == "v" and all(e[0] == "deref" for e in q[1]):
+                        env[dst] = ("d", env[base_][1])
+            elif s_["k"] == "assign":
+                pass
+        t = b.term(blk)
+        if t and t["k"] == "call" and not t["dest"][1]:
+            env.pop(t["dest"][0], None)
+        nxt = None
+        if t and t["k"] == "switch":
+            forced = decide_option(blk, t)
+            if forced is None:
+                q = op_place(t["d"])
+                if q is not None and not q[1] and q[0] in env and env[q[0]][0] == "d":
+                    forced = switch_target(t, env[q[0]][1])
+            if forced is not None:
+                nxt = [forced]
+        if nxt is None:
+            nxt = list(b.succ(blk))
+        envt2 = tuple(sorted(env.items()))
+        for x in nxt:
+            work.append((x, envt2))
+    return seen_blocks
+
+
 class OptionEval:
     """Which configuration option (presence of `ssl` / `ws` / `quic` ..) a switch operand stands for, followed through copies, references, tuples of
     references, `is_some()` / `is_none()` booleans, negation, helper parameters and the state of a spliced `async fn` (flat views)."""
@@ -146,7 +203,8 @@ class OptionEval:
         return None
 
 
-def run(ctx):
+def w1_only(ctx):
+    """W1 (client selector and server listener) alone - imported by C16 G9"""
     prog = ctx.prog
     bodies = [b for b in prog.prod_bodies() if "::_" not in b.defp]
 
@@ -170,7 +228,7 @@ def run(ctx):
             continue
         if len({c.target for (_, c, _) in b0.calls() if is_outbound_ctor(c.target)}) < 1:
             continue
-        fb0 = prog.flat(b0.defp, stop=lambda cb: not cb.defp.startswith("octo_squirrel_client") or is_outbound_ctor(cb.defp), key="w1-selector")
+        fb0 = prog.flat(b0.defp, stop=lambda cb: is_outbound_ctor(cb.defp) or not (cb.defp.startswith("octo_squirrel_client") or cb.defp.startswith("octo_squirrel::config")), key="w1-selector2")
         if len({c.target for (_, c, _) in fb0.calls() if is_outbound_ctor(c.target)}) >= 4:
             sel.append(fb0)
     sel = [x for x in sel if not any(y is not x and x.defp in set(y.origin) for y in sel)] or sel
@@ -183,7 +241,7 @@ def run(ctx):
             continue
         for combo in itertools.product((0, 1), repeat=3):
             cfg = dict(zip(("ssl", "ws", "quic"), combo))
-            seen = simulate_cfg(b, oe.decide(cfg))
+            seen = simulate_with_variants(b, oe.decide(cfg))
             ctors = []
             for (blk, c, t) in b.calls():
                 if blk in seen and c.name != "Future::poll" and is_outbound_ctor(c.target):
@@ -271,6 +329,12 @@ def run(ctx):
                     why = f"{label}: the TLS accept is " + ("" if tls_here else "not ") + "on the path to the relay; expected " + ("TLS" if cfg["ssl"] else "no TLS")
                 ctx.ob("W1", b.defp, f"server:{label}:inbound-type", loc(t["sp"]), ok, why, ordinal=False)
             # every relay is spawned, not awaited (shared with C08-L3)
+
+
+def run(ctx):
+    w1_only(ctx)
+    prog = ctx.prog
+    bodies = [b for b in prog.prod_bodies() if "::_" not in b.defp]
     # ---------------- W2 pump cross-wiring -----------------------------------------------------------------
     fams = {}
     for b in bodies:
